@@ -48,6 +48,13 @@ ENUM_TESTS["trie_histories"] = {
   "what": "the real SubscriptionTrie against the reference semantics of the property text (prefix match on positive counts, N subscribes need N unsubscribes, unsubscribe of the unknown changes nothing, return value = count reached zero)",
 }
 
+ENUM_TESTS["negotiate_table"] = {
+  "file": "enum/negotiate_table.rs", "props": ["C06"], "pairs_fn": ["negotiate_security_mechanism"], "unit": "engine",
+  "append_to": "core/src/security/mod.rs", "test_filter": "verif_enum_negotiate",
+  "bound": "all 32 combinations of (security_enabled, use_plain, use_curve, use_noise_xx, credentials set) x 8 announced mechanism names (4 known, unknown, zeros, 2 with trailing garbage) x both roles = 512 cases, default cargo features",
+  "what": "negotiate_security_mechanism on the real table: a mechanism is returned only if the peer announced exactly its name and the local configuration enables it (NULL only without configured security); this is the contract the engine proof assumes for it",
+}
+
 WITNESS_TESTS = {
   "c01_order_mixed_sizes": {
     "file": "witness/c01_order_mixed_sizes.rs", "props": ["C01"],
@@ -295,6 +302,7 @@ PROPS["C06"]["kani_fallback"] = ["vk_plain_server_accepts_only_configured_creden
 # vk_negotiate_only_enabled_mechanisms was tried as a thorough harness (2026-09-24): CBMC gives no verdict within 1500 s (fn-pointer table, Box<dyn Mechanism>,
 # PlainMechanism construction in the cone); it stays registered for replay only and is NOT part of any tier.
 PROPS["C06"]["kani_thorough"] = ["vk_plain_server_accepts_only_configured_credentials"]
+PROPS["C06"]["enum_thorough"] = ["negotiate_table"]
 PROPS["C06"]["claim"] += (" For PLAIN the mechanism side of that contract is proved too (unit plain): the server reaches ServerSendWelcome/Ready only through a well-formed HELLO whose username AND password equal the configured ones "
                           "(no configured credentials => every HELLO is rejected), an error is terminal, Ready on the server is reachable only from ServerSendWelcome; "
                           "security::initialize_plain (region) hands a listener exactly the configured credentials -- an option that was never set stays 'no valid value', it is not the empty string -- and builds the mechanism in the role it was asked for.")
